@@ -246,6 +246,7 @@ func (r *Runner) staticShard(shard int, wg *sync.WaitGroup) {
 		hangSpec := ""
 		tick := time.NewTicker(time.Second)
 		lastK, lastChange := -1, time.Now()
+		cpuAtChange, _ := ProcCPU(cmd.Process.Pid)
 	loop:
 		for {
 			select {
@@ -255,7 +256,13 @@ func (r *Runner) staticShard(shard int, wg *sync.WaitGroup) {
 				k, spec := ReadJournal(jpath)
 				if k != lastK {
 					lastK, lastChange = k, time.Now()
+					cpuAtChange, _ = ProcCPU(cmd.Process.Pid)
 				} else if k != 0 && r.deadline() < time.Since(lastChange) {
+					// the worker's own processor time decides, not the wall (S1): a worker that was starved by other
+					// work on the machine is given up to six deadlines of wall time to use half a deadline of processor time
+					if used, alive := ProcCPU(cmd.Process.Pid); alive && used-cpuAtChange < r.deadline()/2 && time.Since(lastChange) < 6*r.deadline() {
+						continue
+					}
 					hangSpec = spec
 					killed = true
 					_ = cmd.Process.Kill()
@@ -472,9 +479,8 @@ func (r *Runner) ExecIsolated(spec string) (res Result, ok bool, stderr string) 
 	go func() { _, _ = io.Copy(&out, protoR); _ = protoR.Close(); copied <- true }()
 	done := make(chan error, 1)
 	go func() { done <- cmd.Wait() }()
-	select {
-	case err = <-done:
-	case <-time.After(r.deadline() * 2):
+	var back bool
+	if err, back = WaitBounded(cmd.Process.Pid, done, r.deadline()*2, r.deadline()/2, r.deadline()*6, nil); !back {
 		_ = cmd.Process.Kill()
 		<-done
 		res.Fail("worker:hang", "no result within the deadline in an isolated process")
